@@ -357,6 +357,17 @@ def _derive(a, how):
         return _copy.deepcopy(a)
     # derivations that share storage BY DESIGN (the property does not demand independence; used to validate the
     # view/fresh classification of the model)
+    if how in ('share_mask', 'share_mask_ro'):
+        # a second object with its own values that holds the SAME mask ndarray (masks are shared by design and
+        # "copied before in-place mask edits because they may be shared")
+        if not isinstance(a._mask_, np.ndarray):
+            raise ValueError('scalar mask')
+        b = a.copy(recursive=False).remask(a._mask_, recursive=False, check=False)
+        if b._mask_ is not a._mask_:
+            raise ValueError('mask not shared')
+        if how == 'share_mask_ro':
+            b.as_readonly()
+        return b
     if how == 'clone':
         return a.clone()
     if how == 'wod':
@@ -421,6 +432,14 @@ def _run_seq(case):
 
 def oracle_seq(case):
     r = run_call(case)
+    if case['derive'].startswith('share_mask'):
+        # the mask ndarray is shared: no public mutator of the source may edit it in place
+        for k, b, a, mut in r['changed']:
+            if k[1] == '' and k[2] == 'mask':
+                return ('seq:%s:%s:mask' % (case['derive'], mut),
+                        'B holds the same mask ndarray as A; mutating A with %s changed B.mask %s -> %s; src=%s' %
+                        (mut, _short(b), _short(a), json.dumps(case['src'], sort_keys=True)))
+        return None
     if case['derive'] not in COPIES:
         if r['cchanged']:
             k, b, a = r['cchanged'][0]
